@@ -8,8 +8,11 @@ import (
 	"fmt"
 	"math/big"
 	"os"
+	"reflect"
 	"runtime/debug"
+	"sort"
 	"strings"
+	"sync"
 )
 
 type Replay struct {
@@ -34,6 +37,7 @@ var (
 	cur     Replay
 	out     Outcome
 	counter map[string]int
+	mu      sync.Mutex
 )
 
 type assumeFailed struct{ what string }
@@ -154,15 +158,27 @@ func Assume(c bool) {
 
 func Assert(c bool, id string) {
 	if !c {
+		mu.Lock()
 		out.Failed = append(out.Failed, id)
+		mu.Unlock()
 	}
 }
 
-func Reach(id string) { out.Reached = append(out.Reached, id) }
+func Reach(id string) {
+	mu.Lock()
+	out.Reached = append(out.Reached, id)
+	mu.Unlock()
+}
 
-func Note(s string) { out.Notes = append(out.Notes, s) }
+func Note(s string) {
+	mu.Lock()
+	out.Notes = append(out.Notes, s)
+	mu.Unlock()
+}
 
 func NoteBig(label string, x *big.Int) {
+	mu.Lock()
+	defer mu.Unlock()
 	if x == nil {
 		out.Notes = append(out.Notes, label+"=<nil>")
 		return
@@ -171,6 +187,129 @@ func NoteBig(label string, x *big.Int) {
 }
 
 func Dec(x *big.Int) string { return x.String() }
+
+// ---- write-confinement monitor (native side: deep fingerprints of the roots)
+
+var frozenRoots []interface{}
+var frozenPrint string
+
+func fingerprint(v reflect.Value, seen map[uintptr]bool, sb *strings.Builder, depth int) {
+	if depth > 60 {
+		sb.WriteString("…")
+		return
+	}
+	if !v.IsValid() {
+		sb.WriteString("<invalid>")
+		return
+	}
+	switch v.Kind() {
+	case reflect.Ptr:
+		if v.IsNil() {
+			sb.WriteString("nil")
+			return
+		}
+		if seen[v.Pointer()] {
+			sb.WriteString("<seen>")
+			return
+		}
+		seen[v.Pointer()] = true
+		sb.WriteString("&")
+		fingerprint(v.Elem(), seen, sb, depth+1)
+	case reflect.Interface:
+		if v.IsNil() {
+			sb.WriteString("nil")
+			return
+		}
+		sb.WriteString(v.Elem().Type().String() + ":")
+		fingerprint(v.Elem(), seen, sb, depth+1)
+	case reflect.Struct:
+		sb.WriteString("{")
+		for i := 0; i < v.NumField(); i++ {
+			fingerprint(v.Field(i), seen, sb, depth+1)
+			sb.WriteString(",")
+		}
+		sb.WriteString("}")
+	case reflect.Slice, reflect.Array:
+		if v.Kind() == reflect.Slice && v.IsNil() {
+			sb.WriteString("nil")
+			return
+		}
+		sb.WriteString("[")
+		for i := 0; i < v.Len(); i++ {
+			fingerprint(v.Index(i), seen, sb, depth+1)
+			sb.WriteString(",")
+		}
+		sb.WriteString("]")
+	case reflect.Map:
+		if v.IsNil() {
+			sb.WriteString("nil")
+			return
+		}
+		var entries []string
+		it := v.MapRange()
+		for it.Next() {
+			var kb, vb strings.Builder
+			fingerprint(it.Key(), seen, &kb, depth+1)
+			fingerprint(it.Value(), seen, &vb, depth+1)
+			entries = append(entries, kb.String()+"=>"+vb.String())
+		}
+		sort.Strings(entries)
+		sb.WriteString("map[" + strings.Join(entries, ";") + "]")
+	case reflect.String:
+		sb.WriteString(fmt.Sprintf("%q", v.String()))
+	case reflect.Bool:
+		sb.WriteString(fmt.Sprint(v.Bool()))
+	case reflect.Int, reflect.Int8, reflect.Int16, reflect.Int32, reflect.Int64:
+		sb.WriteString(fmt.Sprint(v.Int()))
+	case reflect.Uint, reflect.Uint8, reflect.Uint16, reflect.Uint32, reflect.Uint64, reflect.Uintptr:
+		sb.WriteString(fmt.Sprint(v.Uint()))
+	case reflect.Float32, reflect.Float64:
+		sb.WriteString(fmt.Sprint(v.Float()))
+	case reflect.Func, reflect.Chan, reflect.UnsafePointer:
+		sb.WriteString("<" + v.Kind().String() + ">")
+	default:
+		sb.WriteString("<?>")
+	}
+}
+
+func printRoots(roots []interface{}) string {
+	var sb strings.Builder
+	for _, r := range roots {
+		fingerprint(reflect.ValueOf(r), map[uintptr]bool{}, &sb, 0)
+		sb.WriteString("|")
+	}
+	return sb.String()
+}
+
+// Freeze snapshots the given roots (in the VM: also every package-level variable).
+func Freeze(roots ...interface{}) {
+	frozenRoots = roots
+	frozenPrint = printRoots(roots)
+}
+
+// FrozenWrites is the number of writes to frozen objects (natively: 1 if the roots changed).
+func FrozenWrites() int {
+	if printRoots(frozenRoots) != frozenPrint {
+		return 1
+	}
+	return 0
+}
+
+// MapOrder asks the VM to explore every iteration order of the maps ranged over from now on.
+func MapOrder(on bool) {}
+
+// Concurrently runs f(0..n-1) from n goroutines (sequentially in the VM).
+func Concurrently(n int, f func(i int)) {
+	var wg sync.WaitGroup
+	for i := 0; i < n; i++ {
+		wg.Add(1)
+		go func(i int) {
+			defer wg.Done()
+			f(i)
+		}(i)
+	}
+	wg.Wait()
+}
 
 func And(a, b bool) bool     { return a && b }
 func Or(a, b bool) bool      { return a || b }
